@@ -303,7 +303,12 @@ func (fc *FnCtx) fieldOf(st *State, base Val, idx int, pos token.Pos) Val {
 		fc.checkGuard(st, owner, f.Name(), base.T, false, pos)
 		key := fc.fieldKey(owner, f.Name())
 		arr := fc.heapGet(st, key, fmt.Sprintf("(Array Int %s)", fc.sortOf(f.Type())))
-		return Val{T: app("select", arr, base.T), Ty: f.Type()}
+		t := app("select", arr, base.T)
+		if fc.inSpec == 0 && isInteger(f.Type()) && !fc.isBVType(f.Type()) {
+			// a stored machine integer is within the range of its type
+			fc.assume(st, fc.rangeFact(t, f.Type()))
+		}
+		return Val{T: t, Ty: f.Type()}
 	}
 	ss := fc.sortOf(owner)
 	if !fc.isDatatype(owner) {
